@@ -15,7 +15,7 @@ EXHAUSTIVE = {"quick": False, "thorough": False}
 RULE = ("cases: kind in {ensemble (class API: Lattice/Buckshot/Sparsity x nested NelderMead/Powell, dims 1-3, bin layouts with 1s and "
         "primes or an integer bin total, npts 1-8, strict ranges on a dyadic grid or none, evaluation/iteration limits <= 50, "
         "VTR/COG/NCOG termination, optional idempotent constraint and penalty, 5 recorded cost families incl. constant and coarse "
-        "tie-heavy ones; every case is run as Solve under the builtin map and under serial/reversed/shuffled/thread-pool maps and as a "
+        "tie-heavy ones; a fifth of the cases use nested DifferentialEvolutionSolver/DifferentialEvolutionSolver2 members (NP 4-6); every case is run as Solve under the builtin map and under serial/reversed/shuffled/thread-pool maps and as a "
         "Step loop under two maps), wrapper (lattice/buckshot/sparsity one-liners vs the class API), gridpts (thorough: ALL shapes with "
         "<=4 axes of 0-4 bins), lattice_pts, samplepts, randomly_bin, fillpts}; non-trivial = more than one member / point; "
         "distinct = distinct case JSON")
@@ -64,7 +64,9 @@ def _costspec(rng, lo, hi):
 def _ensemble_case(rng, tier):
     solver = rng.choice(["lattice", "lattice", "buckshot", "buckshot", "sparsity"])
     dim = rng.choice([1, 2, 2, 2, 3])
-    case = dict(kind="ensemble", solver=solver, dim=dim, nested=rng.choice(["NM", "NM", "Powell"]), seed=rng.randrange(10**6))
+    case = dict(kind="ensemble", solver=solver, dim=dim, nested=rng.choice(["NM", "NM", "Powell", "DE", "DE2"]), seed=rng.randrange(10**6))
+    if case["nested"] in ("DE", "DE2"):
+        case["NP"] = rng.choice([4, 5, 6])
     if solver == "lattice":
         if rng.random() < 0.2:
             case["nbins"] = rng.choice([1, 2, 3, 4, 5, 6, 7, 8])
@@ -96,6 +98,12 @@ def _ensemble_case(rng, tier):
     case["runs"] = [["solve", "default"]] + [["solve", m] for m in others] + [["step", "default"], ["step", rng.choice(others)]]
     if solver == "sparsity" and tier == "quick":      # fillpts is the expensive part: fewer repetitions
         case["runs"] = [["solve", "default"], ["solve", rng.choice(others)], ["step", rng.choice(others)]]
+    if case["nested"] in ("DE", "DE2"):
+        # the members draw from the global RNG on every Step: only deterministic (single-threaded) maps, several Steps
+        case["runs"] = [["solve", "default"], ["solve", rng.choice(["ser", "rev", "shuf"])], ["step", "default"], ["step", rng.choice(["ser", "rev", "shuf"])]]
+        if case["maxfun"] is None:
+            case["maxfun"] = 50
+        case["maxiter"] = rng.choice([None, 3, 6, 8])
     if rng.random() < 0.08 and case["lo"] and solver != "buckshot":
         case["dist"] = True                # SetDistribution: perturbed start points (may leave the box; members clip them back)
     if rng.random() < 0.04 and case["lo"] and not case.get("dist"):
